@@ -16,6 +16,7 @@ import (
 	"fmt"
 	"math"
 	"reflect"
+	"sort"
 	"strconv"
 	"strings"
 	"testing"
@@ -87,6 +88,7 @@ func (s Stage) text(sp *speller) string {
 //
 //	expr: E evaluated in Pos; oracle = eval(E)
 //	neg:  E = !path over a non-bool path; only agreement of the condition positions is asserted
+//	absent: E = a name that is not a variable (possibly the name of a function): nil everywhere
 //	path: E = a path in vuego's own syntax (hyphenated keys, numeric dot steps) as the whole expression
 //	pipe: Init | Stages…; oracle = left-to-right application
 //	err:  Init | Stages… (or the call form Fn(Init-as-args) when Call) must fail naming ErrFn
@@ -121,10 +123,17 @@ type Case struct {
 	After string `json:"after,omitempty"`
 	// expr family: the engine first evaluates the expression while the registered functions it
 	// calls are NOT yet registered (it may fail), then they are registered on the same engine
-	Late  bool   `json:"late,omitempty"`
-	Wrap  string `json:"wrap,omitempty"`
-	WrapX string `json:"wrapx,omitempty"`
-	Why   string `json:"why,omitempty"` // err family: unknown | arity | conversion | returned
+	Late bool `json:"late,omitempty"`
+	// how the data reaches the engine: "" New().Fill(map or struct) + RenderString; "assign"
+	// New().Fill(empty map) then Assign key by key (struct, pointer, Stringer values as they
+	// are); "fragment" NewVue(fs).Funcs(...) + RenderFragment(w, file, data). Same meaning.
+	Deliver string `json:"deliver,omitempty"`
+	// the case registers its own upper / lower / trim / title / len, replacing the default
+	// functions of those names with distinguishable behaviour (see overrideOn)
+	Override bool   `json:"override,omitempty"`
+	Wrap     string `json:"wrap,omitempty"`
+	WrapX    string `json:"wrapx,omitempty"`
+	Why      string `json:"why,omitempty"` // err family: unknown | arity | conversion | returned
 }
 
 // Bind is one `v-for="Var in List"` scope; List is a root variable (see scopeLists).
@@ -172,7 +181,7 @@ func (c Case) scopeWrap() (open, close string) {
 // Text is the expression source placed into the template.
 func (c Case) Text() string {
 	switch c.Fam {
-	case "expr", "neg", "path":
+	case "expr", "neg", "path", "absent":
 		return c.E.Spelled(c.Spell)
 	}
 	if c.Call {
@@ -433,10 +442,12 @@ func rawText(out, tag string, idx int) string {
 }
 
 func check(c Case) error {
+	overrideOn = c.Override
+	defer func() { overrideOn = false }()
 	env := envOf(c.Env)
 	pos := c.Pos
 	switch c.Fam {
-	case "expr", "neg", "path":
+	case "expr", "neg", "path", "absent":
 		if c.E == nil {
 			return nil
 		}
@@ -493,6 +504,12 @@ func expected(c Case, env map[string]any) (v any, known bool, err error) {
 	switch c.Fam {
 	case "neg":
 		return nil, false, nil
+	case "absent":
+		// a name the data does not bind (it may be the name of a function): nil in every position
+		if _, ok := resolve(env, c.E.V); ok {
+			return nil, false, fmt.Errorf("CHECK-BUG: %s is bound in environment %d", c.E.V, c.Env)
+		}
+		return nil, true, nil
 	case "path":
 		// a path in vuego's own syntax as the whole expression: the value the path walker finds
 		v, ok := resolve(env, c.E.V)
@@ -707,6 +724,20 @@ func caseEngine(c Case, env map[string]any) (*engine, error) {
 			_, _ = eng.render(open + templateFor(p, src) + close) // may fail: the functions are not registered yet
 		}
 		eng.registerLate(src)
+	} else if c.Deliver == "fragment" {
+		eng = newLateEngine(data)
+		eng.registerLate(src)
+	} else if m, isMap := data.(map[string]any); isMap && c.Deliver == "assign" {
+		t := vuego.New(vuego.WithFuncs(funcMapFor(src))).Fill(map[string]any{})
+		keys := make([]string, 0, len(m))
+		for k := range m {
+			keys = append(keys, k)
+		}
+		sort.Strings(keys)
+		for _, k := range keys {
+			t = t.Assign(k, m[k])
+		}
+		eng = &engine{t: t, n: 1}
 	} else {
 		eng = newEngine(data, src)
 	}
@@ -1008,15 +1039,23 @@ func TestProp(t *testing.T) {
 	enum = append(enum, g.enumPointers()...)
 	enum = append(enum, g.enumExprLib()...)
 	enum = append(enum, g.enumLate()...)
+	enum = append(enum, g.enumOverride()...)
 	okAll := true
 	for i, c := range enum {
 		if i%shards != shard {
 			continue
 		}
+		if (c.Fam == "expr" || c.Fam == "pipe" || c.Fam == "path" || c.Fam == "absent") && c.Deliver == "" && !c.Override && i%4 == 1 {
+			// data delivery, a rotating quarter of the cases: Assign key by key / Vue.RenderFragment
+			c.Deliver = "fragment"
+			if c.Env != structEnv && (i/4)%2 == 0 {
+				c.Deliver = "assign"
+			}
+		}
 		if (c.Fam == "expr" || c.Fam == "pipe") && i%7 == 3 {
 			c.After = []string{"fresh", "same"}[(i/7)%2] // after-failure, a rotating seventh of the cases
 		}
-		if c.Fam == "expr" && i%9 == 4 && hasRegisteredCall(*c.E) {
+		if c.Fam == "expr" && i%9 == 4 && hasRegisteredCall(*c.E) && c.Deliver == "" {
 			c.Late = true
 		}
 		if c.Fam == "expr" && i%97 < run.Pick(1, 3) {
